@@ -18,6 +18,7 @@ from vf import fits as FT
 from vf.gen import rng_for
 
 ID = "C06"
+TECHNIQUE = 'runtime monitoring: exhaustive driving of the real clock-normalisation step over every tz-database transition 2000-2037 with a reference slot model, plus index/finiteness post-conditions on end-to-end predict() across transitions and zone pairs'
 LEVEL = "exploration"
 CASE_TIMEOUT = 3000
 RULE = ("step: every UTC-offset transition 2000-01-01..2037-12-31 of every zone in pytz.all_timezones (aliases included), window = 2 local days before .. "
